@@ -28,7 +28,7 @@ META = {
     "the hypothesis is exact (C26_tail_exact: otherwise the result is the job directory itself or its parent) and a literal tail "
     "with a non-dot character is sufficient whatever the values are (C26_literal_tail_ok); the result is a function of template, referenced values "
     "and keep_extension only (C26_deterministic, C26_irrelevant_value) and is always directly under the job directory or equal to it / its "
-    "parent (C26_never_deeper); the three extension cases of _element_formatting (C26_ext_*) and explicit paths returned as given "
+    "parent (C26_never_deeper); the three extension cases of _element_formatting (C26_ext_*), end to end for `{x}suffix` templates (C26_ext_moved_name), and explicit paths returned as given "
     "(C26_explicit).  The full statement is refuted for the pinned code by C26_witness_dotdot / C26_witness_empty (D16).  The model is tied "
     "to pydra/compose/shell/templating.py by running template_update, template_update_single(spec_type='output') and whole tasks "
     "(executor intercepted) against the model on generated templates (0-2 referenced inputs, files with 0-2 extensions, strings "
@@ -282,29 +282,36 @@ def impl_fast(case, scratch: Path) -> tuple[dict, bool]:
     return {"input": a, "output": b, "det": det}, rule
 
 
-def impl_full(case, scratch: Path) -> dict:
-    """A whole task run with the executor intercepted: Job.inputs['out'], the argv, the collected output."""
+def _out_obs(cd, value) -> dict:
+    """Collected outputs as a flat list of paths (a one-element MultiOutputFile list collapses to a single File)."""
+    if value is None:
+        return {"paths": []}
+    vs = value if isinstance(value, list) else [value]
+    return {"paths": sorted({rel_to(cd, v) for v in vs})}  # equal entries of a MultiOutputFile list are collected once
+
+
+def impl_full(case, scratch: Path) -> tuple[dict, str | None]:
+    """A whole task run with the executor intercepted: Job.inputs['out'], the argv, the collected output.
+    Returns (observable, job directory or None when the executor was never reached)."""
     rec: dict = {}
     try:
         task, _ = _build(case, scratch)
     except Exception as e:
-        return {"build": core.exc_tag(e)}
+        return {"build": core.exc_tag(e)}, None
     res = {}
     with recording_executor(rec):
         try:
             outs = task(cache_root=scratch / ("cache-" + uuid.uuid4().hex[:12]), worker="debug")
-            cd = rec["cache_dir"]
-            res["outputs"] = _obs(cd, outs.out)
+            res["outputs"] = _out_obs(rec["cache_dir"], outs.out)
         except Exception as e:
-            res["outputs"] = {"kind": "error", "err": core.exc_tag(e)}
-    if "cache_dir" in rec:
-        cd = rec["cache_dir"]
-        v = rec["inputs"].get("out")
-        res["job_input"] = _obs(cd, None if (v is None or v is False) else v)
-        res["argv_has"] = sorted({rel_to(cd, a) for a in rec["argv"][1:] if str(a).startswith(str(cd))})
-    else:
-        res["job_input"] = {"kind": "not-executed"}
-    return res
+            res["outputs"] = {"error": core.exc_tag(e)}
+    if "cache_dir" not in rec:
+        return {"not-executed": res["outputs"]}, None
+    cd = rec["cache_dir"]
+    v = rec["inputs"].get("out")
+    res["job_input"] = _obs(cd, None if (v is None or v is False) else v)
+    res["argv_has"] = sorted({rel_to(cd, a) for a in rec["argv"][1:] if str(a) == str(cd) or str(a).startswith(str(cd) + "/")})
+    return res, str(cd)
 
 
 # ------------------------------------------------------------------------------------------------
@@ -371,7 +378,30 @@ def spec_fast(case, impl, scratch) -> bool:
     else:
         ok = ok and all(is_plain_name(p) for p in paths_of(impl["input"]))
     ok = ok and all(is_plain_name(p) for p in paths_of(impl["output"]))
-    return ok
+    return ok and ext_clause_ok(case, impl)
+
+
+def ext_clause_ok(case, impl) -> bool:
+    """"keeping or dropping the input file's extension as declared", for the unambiguous situation: the template has no
+    extension of its own and references exactly one input, a file `stem.ext`: with keep_extension the resolved name ends in
+    `.ext`, without it it does not."""
+    t = case["tmpl"]
+    refs = [i for i in case["inputs"] if "{" + i["name"] + "}" in t]
+    if case["given"]["kind"] != "template" or "." in t or len(refs) != 1 or refs[0]["kind"] != "file":
+        return True
+    if any(("{" + i["name"]) in t for i in case["inputs"] if i is not refs[0]):
+        return True
+    fname = refs[0]["fname"]
+    stem, _, ext = fname.partition(".")
+    if not stem or not ext:
+        return True
+    for key in ("input", "output"):
+        o = impl[key]
+        if o.get("kind") != "one":
+            continue
+        if o["p"].endswith("." + ext) != bool(case["keep"]):
+            return False
+    return True
 
 
 def run_fast(ctx, cases):
@@ -433,27 +463,31 @@ def _count(ctx, c, impl, refs):
 def run_full(ctx, cases):
     scratch = ctx.scratch / "c26full"
     scratch.mkdir(exist_ok=True)
-    cd = str(scratch / "JOB")
     impls = [impl_full(c, scratch) for c in cases]
-    ans = ctx.driver("PathTemplate", [model_query(c, scratch) for c in cases])
-    for k, (c, impl) in enumerate(zip(cases, impls)):
+    todo = [(c, impl, cd) for c, (impl, cd) in zip(cases, impls) if cd is not None]
+    ans = ctx.driver("PathTemplate", [{**model_query(c, scratch), "cd": cd} for c, _, cd in todo])
+    answers = dict(zip((id(c) for c, _, _ in todo), ans)) if ans is not None else {}
+    for c, (impl, cd) in zip(cases, impls):
         model = None
         rule = False
-        if ans is not None and "error" not in ans[k] and "build" not in impl and impl["job_input"].get("kind") != "not-executed":
-            m = model_obs(cd, ans[k]["out"])
-            rule = not ans[k]["tailOK"]
+        a = answers.get(id(c))
+        if a is not None and "error" in a:
+            ctx.tie_broken.append({"kind": "model-driver", "detail": f"driver rejected {c}: {a['error']}"})
+        elif a is not None:
+            m = model_obs(cd, a["out"])
+            rule = not a["tailOK"] and c["given"]["kind"] == "template"
             if m is not None and m["kind"] != "error":
                 ps = paths_of(m)
                 model = {"job_input": m, "argv_has": sorted(set(p for p in ps if not p.startswith("ABS:")))}
-                # collected outputs are modelled only when every path is a plain name (otherwise File() coercion of a
-                # directory decides, which this engine does not model): take the implementation's value as is
-                plain = all(is_plain_name(p) for p in ps) and c["given"]["kind"] == "template"
-                model["outputs"] = m if plain else impl["outputs"]
+                # collected outputs are modelled only when paths were produced from the template and every one is a plain
+                # name (a directory / missing file is decided by File() coercion, which this engine does not model)
+                plain = bool(ps) and all(is_plain_name(p) for p in ps) and c["given"]["kind"] == "template"
+                model["outputs"] = {"paths": sorted(set(ps))} if plain else impl["outputs"]
         ok = True
         if "job_input" in impl and c["given"]["kind"] == "template":
-            ok = all(is_plain_name(p) for p in paths_of(impl["job_input"])) and all(is_plain_name(p) for p in paths_of(impl.get("outputs", {})))
+            ok = all(is_plain_name(p) for p in paths_of(impl["job_input"])) and all(is_plain_name(p) for p in impl["outputs"].get("paths", []))
         ctx.count("full-run")
-        ctx.count("full:" + impl.get("outputs", {}).get("kind", "build"))
+        ctx.count("full:" + ("build" if "build" in impl else "not-executed" if cd is None else "error" if "error" in impl["outputs"] else "collected"))
         ctx.judge({"full": True, **c}, impl, model, ok, nontrivial=bool(paths_of(impl.get("job_input", {}))), defect="D16" if rule else None, what="task run (executor intercepted)")
 
 
@@ -463,26 +497,30 @@ def full_sample(rng, n):
         c = gen_case(rng)
         if c["given"]["kind"] == "off":
             continue
+        if any(" " in str(v) for i in c["inputs"] for v in ([i.get("value")] if not isinstance(i.get("value"), list) else i["value"])):
+            continue  # a value with white space is split again on its way into argv (D14, property C23): fast path only
         out.append(c)
     return out
 
 
-def correspondence(ctx):
-    core.assert_repo_loaded()
+def confirm_findings(ctx):
+    """Replay the D16 witnesses on the implementation (corpus first)."""
     scratch = ctx.scratch / "c26w"
     scratch.mkdir(exist_ok=True)
-    # corpus first: the D16 witnesses
     obs = [impl_fast(w, scratch)[0] for w in WITNESSES]
     fails = obs[0].get("input") == {"kind": "one", "p": ".."} and obs[1].get("input") == {"kind": "one", "p": ""}
     if any(f["id"] == "D16" for f in ctx.known()):
         ctx.finding("D16", fails, f"x='..' -> {obs[0].get('input')}; x='' -> {obs[1].get('input')}")
+
+
+def correspondence(ctx):
+    core.assert_repo_loaded()
+    confirm_findings(ctx)
     corpus = []
     cf = core.VERIF / "corpus" / "template" / "C26.jsonl"
     if cf.exists():
         corpus = [json.loads(l) for l in cf.read_text().splitlines() if l.strip()]
-    run_fast(ctx, WITNESSES + corpus)
-    run_fast(ctx, grid_cases())
-    run_fast(ctx, [gen_case(ctx.rng) for _ in range(ctx.pick(1500, 25000))])
+    run_fast(ctx, WITNESSES + corpus + grid_cases() + [gen_case(ctx.rng) for _ in range(ctx.pick(1500, 25000))])
     run_full(ctx, WITNESSES + full_sample(ctx.rng, ctx.pick(120, 2500)))
 
 
@@ -491,6 +529,8 @@ def search(ctx):
 
 
 def replay(ctx, rec):
+    core.assert_repo_loaded()
+    confirm_findings(ctx)
     c = dict(rec["case"])
     if c.pop("full", False):
         run_full(ctx, [c])
